@@ -373,6 +373,18 @@ struct conf_node_string *conf_register_string(struct conf_node_object *parent, e
     cnode = conf_register_node(parent, name, CONF_STRING, sizeof(*cnode));
     cnode->subtype = subtype;
     cnode->def_value = def_value;
+    if (cnode->value && def_value && subtype != CONF_STRING_PLAIN) {
+        /* The file was loaded before we got here and its text may not
+         * parse as this subtype; start from the default so that that
+         * is what stays in force then.
+         */
+        char *file_value = cnode->value;
+
+        cnode->value = NULL;
+        conf_parse_string_value(cnode);
+        xfree(cnode->value);
+        cnode->value = file_value;
+    }
     conf_parse_string_value(cnode);
     return cnode;
 }
